@@ -113,60 +113,80 @@ func extractOaRules() (string, error) {
 		}
 		applyGetter = append(applyGetter, [2]string{name, getter})
 		// guarded assignments `if c.HasX() / c.GetX() / len(c.GetX()) > 0 { ... schema.F = ... }`
-		for _, st := range fd.Body.List {
-			is, ok := st.(*ast.IfStmt)
-			if !ok {
-				if ss, ok := st.(*ast.SwitchStmt); ok && ss.Tag == nil {
-					for _, c := range ss.Body.List {
-						cc := c.(*ast.CaseClause)
-						if len(cc.List) != 1 {
-							continue
+		// an apply function may hand its rule group to a shared helper (applyIntegerRules[T]): the
+		// helper's assignments are attributed to the apply function that reads the group
+		var scan func(stmts []ast.Stmt, depth int)
+		scan = func(stmts []ast.Stmt, depth int) {
+			for _, st := range stmts {
+				if es, ok := st.(*ast.ExprStmt); ok && depth == 0 {
+					if call, ok := es.X.(*ast.CallExpr); ok {
+						fun := call.Fun
+						if ix, ok := fun.(*ast.IndexExpr); ok {
+							fun = ix.X
 						}
-						acc := accessorOf(cc.List[0])
-						for _, b := range cc.Body {
-							if as, ok := b.(*ast.AssignStmt); ok && len(as.Lhs) == 1 && exprString(as.Lhs[0]) == "schema.Format" {
-								if bl, ok := as.Rhs[0].(*ast.BasicLit); ok {
-									v, _ := strconv.Unquote(bl.Value)
-									formatSwitch = append(formatSwitch, [2]string{acc, v})
+						if id, ok := fun.(*ast.Ident); ok {
+							if helper := findFunc(f, id.Name); helper != nil {
+								scan(helper.Body.List, depth+1)
+							}
+						}
+					}
+					continue
+				}
+				is, ok := st.(*ast.IfStmt)
+				if !ok {
+					if ss, ok := st.(*ast.SwitchStmt); ok && ss.Tag == nil {
+						for _, c := range ss.Body.List {
+							cc := c.(*ast.CaseClause)
+							if len(cc.List) != 1 {
+								continue
+							}
+							acc := accessorOf(cc.List[0])
+							for _, b := range cc.Body {
+								if as, ok := b.(*ast.AssignStmt); ok && len(as.Lhs) == 1 && exprString(as.Lhs[0]) == "schema.Format" {
+									if bl, ok := as.Rhs[0].(*ast.BasicLit); ok {
+										v, _ := strconv.Unquote(bl.Value)
+										formatSwitch = append(formatSwitch, [2]string{acc, v})
+									}
 								}
 							}
 						}
 					}
+					continue
 				}
-				continue
-			}
-			acc := accessorOf(is.Cond)
-			if acc == "" {
-				continue
-			}
-			ast.Inspect(is.Body, func(n ast.Node) bool {
-				switch x := n.(type) {
-				case *ast.AssignStmt:
-					if len(x.Lhs) == 1 && strings.HasPrefix(exprString(x.Lhs[0]), "schema.") {
-						field := strings.TrimPrefix(exprString(x.Lhs[0]), "schema.")
-						assigns = append(assigns, leanTuple(name, acc, field))
-						if field == "ExclusiveMinimum" || field == "ExclusiveMaximum" {
-							exclusive = append(exclusive, fmt.Sprintf("(%s, %s, %s, %s)", leanStr(name), leanStr(field), leanStrList(litKeys(x.Rhs[0])), leanStr(litValue(x.Rhs[0], "N"))))
+				acc := accessorOf(is.Cond)
+				if acc == "" {
+					continue
+				}
+				ast.Inspect(is.Body, func(n ast.Node) bool {
+					switch x := n.(type) {
+					case *ast.AssignStmt:
+						if len(x.Lhs) == 1 && strings.HasPrefix(exprString(x.Lhs[0]), "schema.") {
+							field := strings.TrimPrefix(exprString(x.Lhs[0]), "schema.")
+							assigns = append(assigns, leanTuple(name, acc, field))
+							if field == "ExclusiveMinimum" || field == "ExclusiveMaximum" {
+								exclusive = append(exclusive, fmt.Sprintf("(%s, %s, %s, %s)", leanStr(name), leanStr(field), leanStrList(litKeys(x.Rhs[0])), leanStr(litValue(x.Rhs[0], "N"))))
+							}
 						}
-					}
-					// local := int64(x.GetY())
-					if x.Tok == token.DEFINE && len(x.Rhs) == 1 {
-						if call, ok := x.Rhs[0].(*ast.CallExpr); ok && len(call.Args) == 1 {
-							if id, ok := call.Fun.(*ast.Ident); ok && (id.Name == "int64" || id.Name == "float64") {
-								if strings.Contains(srcOf(call.Args[0]), ".Get") {
-									countConv = append(countConv, leanTuple(name, acc, id.Name))
+						// local := int64(x.GetY())
+						if x.Tok == token.DEFINE && len(x.Rhs) == 1 {
+							if call, ok := x.Rhs[0].(*ast.CallExpr); ok && len(call.Args) == 1 {
+								if id, ok := call.Fun.(*ast.Ident); ok && (id.Name == "int64" || id.Name == "float64") {
+									if strings.Contains(srcOf(call.Args[0]), ".Get") {
+										countConv = append(countConv, leanTuple(name, acc, id.Name))
+									}
 								}
 							}
 						}
+					case *ast.CompositeLit:
+						if srcOf(x.Type) == "yaml.Node" {
+							nodeLits = append(nodeLits, fmt.Sprintf("(%s, %s, %s)", leanStr(name), leanStr(acc), leanStrList(litKeys(x))))
+						}
 					}
-				case *ast.CompositeLit:
-					if srcOf(x.Type) == "yaml.Node" {
-						nodeLits = append(nodeLits, fmt.Sprintf("(%s, %s, %s)", leanStr(name), leanStr(acc), leanStrList(litKeys(x))))
-					}
-				}
-				return true
-			})
+					return true
+				})
+			}
 		}
+		scan(fd.Body.List, 0)
 	}
 	if len(formatSwitch) == 0 {
 		return "", fmt.Errorf("well-known format switch not found in applyStringConstraints")
